@@ -9,7 +9,7 @@ import (
 	"verifharness/internal/gen"
 )
 
-// C09 \u2014 every renderer is total: never panics; failure is an error with no text.
+// C09 - every renderer is total: never panics; failure is an error with no text.
 //
 // Monitor: panic guard + (text, err) check around every route, over a
 // bounded-exhaustive enumeration of build sequences and random longer ones.
